@@ -10,7 +10,11 @@
 (*     big-endian into the following bytes.                                *)
 (* Nothing here uses the library's (mask, offset) notation.                *)
 (***************************************************************************)
-EXTENDS Naturals, Sequences, FiniteSets
+EXTENDS Naturals, Sequences, FiniteSets, TLC
+
+\* TLC evaluates function constructors lazily and re-evaluates the body on every
+\* application; Ev forces the explicit value once (semantically the identity).
+Ev(x) == TLCEval(x)
 
 Byte == 0..255
 
@@ -18,7 +22,7 @@ Pow2(n) == 2^n
 
 IsBuf(s) == \A i \in 1..Len(s) : s[i] \in Byte
 
-Zeros(n) == [i \in 1..n |-> 0]
+Zeros(n) == Ev([i \in 1..n |-> 0])
 
 (* ---- numbers ---------------------------------------------------------- *)
 
@@ -50,11 +54,11 @@ NatClamp(s) == LET t == Strip(s) IN IF Len(t) > 3 THEN 16777216 ELSE NatOfNum(t)
 
 \* big-endian rendering of v into exactly k bytes (low 8k bits of v)
 IntToBA(v, k) ==
-    [j \in 1..k |->
+  Ev([j \in 1..k |->
         LET base == 8 * (k - j) IN
         BitOfNum(v, base)         + 2 * BitOfNum(v, base + 1) + 4 * BitOfNum(v, base + 2)
       + 8 * BitOfNum(v, base + 3) + 16 * BitOfNum(v, base + 4) + 32 * BitOfNum(v, base + 5)
-      + 64 * BitOfNum(v, base + 6) + 128 * BitOfNum(v, base + 7)]
+      + 64 * BitOfNum(v, base + 6) + 128 * BitOfNum(v, base + 7)])
 
 \* value of a byte string read big-endian
 BE(ba) == Strip(ba)
@@ -74,19 +78,19 @@ Get(buf, f) ==
     LET s  == Start(f)
         nb == (f.w + 7) \div 8
         vb(i) == IF i >= f.w THEN 0 ELSE LinBit(buf, s + f.w - 1 - i)    \* value bit i
-    IN Strip([j \in 1..nb |->
+    IN Strip(Ev([j \in 1..nb |->
                 LET base == 8 * (nb - j) IN
                 vb(base)          + 2 * vb(base + 1)  + 4 * vb(base + 2)  + 8 * vb(base + 3)
-              + 16 * vb(base + 4) + 32 * vb(base + 5) + 64 * vb(base + 6) + 128 * vb(base + 7)])
+              + 16 * vb(base + 4) + 32 * vb(base + 5) + 64 * vb(base + 6) + 128 * vb(base + 7)]))
 
 \* buf with the low f.w bits of v stored in field f; every other bit unchanged
 Put(buf, f, v) ==
     LET s == Start(f)
         nb(p) == IF p \in FieldPos(f) THEN BitOfNum(v, s + f.w - 1 - p) ELSE LinBit(buf, p)
-    IN [j \in 1..Len(buf) |->
+    IN Ev([j \in 1..Len(buf) |->
           LET q == 8 * (j - 1) IN
           128 * nb(q)    + 64 * nb(q + 1) + 32 * nb(q + 2) + 16 * nb(q + 3)
-        + 8 * nb(q + 4)  + 4 * nb(q + 5)  + 2 * nb(q + 6)  + nb(q + 7)]
+        + 8 * nb(q + 4)  + 4 * nb(q + 5)  + 2 * nb(q + 6)  + nb(q + 7)])
 
 \* several fields at once: fs is a sequence of fields, vs the sequence of their values.
 \* Where fields overlap the first one in the sequence wins (layouts used as oracles are
@@ -97,10 +101,10 @@ PutAll(buf, fs, vs) ==
         nb(p) == IF cover(p) = {} THEN LinBit(buf, p)
                  ELSE LET i == Min(cover(p)) IN
                       BitOfNum(vs[i], Start(fs[i]) + fs[i].w - 1 - p)
-    IN [j \in 1..Len(buf) |->
+    IN Ev([j \in 1..Len(buf) |->
           LET q == 8 * (j - 1) IN
           128 * nb(q)    + 64 * nb(q + 1) + 32 * nb(q + 2) + 16 * nb(q + 3)
-        + 8 * nb(q + 4)  + 4 * nb(q + 5)  + 2 * nb(q + 6)  + nb(q + 7)]
+        + 8 * nb(q + 4)  + 4 * nb(q + 5)  + 2 * nb(q + 6)  + nb(q + 7)])
 
 Disjoint(fs) == \A i, j \in 1..Len(fs) : i # j => FieldPos(fs[i]) \cap FieldPos(fs[j]) = {}
 
@@ -111,10 +115,10 @@ Clear(buf, f) == Put(buf, f, <<>>)
 
 Sub(buf, off, n) ==     \* bytes off .. off+n-1 (0-based), truncated at the end of buf
     LET hi == IF off + n > Len(buf) THEN Len(buf) ELSE off + n IN
-    IF off >= hi THEN <<>> ELSE [i \in 1..(hi - off) |-> buf[off + i]]
+    IF off >= hi THEN <<>> ELSE Ev([i \in 1..(hi - off) |-> buf[off + i]])
 
 PutBlob(buf, off, bytes) ==   \* requires off + Len(bytes) <= Len(buf)
-    [j \in 1..Len(buf) |-> IF j > off /\ j <= off + Len(bytes) THEN bytes[j - off] ELSE buf[j]]
+    Ev([j \in 1..Len(buf) |-> IF j > off /\ j <= off + Len(bytes) THEN bytes[j - off] ELSE buf[j]])
 
 \* the library's three blob kinds: unit 1, 2 or 4 bytes
 BlobUnit(kind) == CASE kind = "b" -> 1 [] kind = "w" -> 2 [] kind = "dw" -> 4
